@@ -55,7 +55,7 @@ class C18(PureCheck):
     rule = ("(a) get_cursor_position on a scripted in_stream: reports with row/col in {1,9,10,123,65535} in 7-bit and 8-bit "
             "CSI form, preceded by every string of length <=4 over {x, ESC, [, 1, ;, R, newline} that contains no complete "
             "report (quick: all <=3 + sampled 4), plus long bursts (40..1000 characters) and non-ASCII characters ahead of the report on utf-8 and latin-1 streams, followed by trailing input, with 0..3 OSError faults at chosen read attempts, "
-            "with and without extra_bytes_callback; (b) get_cursor_vertical_diff with top_usable_row in -1..4, last cursor row "
+            "with and without extra_bytes_callback; (b) get_cursor_vertical_diff after a real render (arrays shorter than / as tall as / taller than the terminal, cursor on the first, second, last array row) followed by a movement of -1..2 rows, and with top_usable_row in -1..4, last cursor row "
             "None/0..4, 1..3 successive reported rows 0..5 and a nested call injected during the first or second query. "
             "distinct_nontrivial = distinct cases with non-empty extra, a fault, or a non-zero movement")
     exhaustive = {"quick": False, "thorough": True}
@@ -130,6 +130,13 @@ class C18(PureCheck):
                             continue
                         yield {"op": "vdiff", "top0": top0, "last0": last0, "rows": rows, "nested": nested}
         # the nested call arriving at every line of the outer call
+        # the baseline left behind by a real render (arrays shorter than, as tall as and taller than the 5-row terminal,
+        # the cursor on the first, second and last array row), then the content moves by d rows
+        for top0 in (0, 1, 3):
+            for n in (1, 3, 5, 6, 8, 9):
+                for cr in sorted({0, min(1, n - 1), n - 1}):
+                    for d in (-1, 0, 1, 2):
+                        yield {"op": "vdiff", "top0": top0, "last0": 0, "rows": [], "nested": 0, "render": [n, cr], "d": d}
         for (top0, last0, rows) in ((5, 5, [8, 8, 8]), (0, 2, [5, 5, 5]), (3, 4, [1, 1, 1]), (-1, 0, [3, 4, 4]), (2, -1, [4, 6, 6]), (1, 3, [3, 3, 3])):
             for k in range(1, 41):
                 yield {"op": "vdiff", "top0": top0, "last0": last0, "rows": rows, "nested": 0, "nested_line": k}
@@ -168,9 +175,25 @@ class C18(PureCheck):
                 ev["asked"] = out.take().count("\x1b[6n")
             else:
                 ins = ScriptIn()
-                win = CursorAwareWindow(out_stream=out, in_stream=ins, extra_bytes_callback=None)
-                win.top_usable_row = inp["top0"]
-                win._last_cursor_row = None if inp["last0"] == -1 else inp["last0"]
+                if inp.get("render"):
+                    # the baseline is not handed in but left behind by a real render on a 5-row terminal: an array of n
+                    # rows drawn from row top0 with the cursor on array row cr; where the terminal's cursor then is
+                    # (the last cursor-position sequence written) is the row all later movement is measured from
+                    out.close()
+                    out = winlib.CaptureStream(5, 20)
+                    win = CursorAwareWindow(out_stream=out, in_stream=ins, extra_bytes_callback=None)
+                    win.top_usable_row = inp["top0"]
+                    n, cr = inp["render"]
+                    win.render_to_terminal(["r%d" % k for k in range(n)], (cr, 1))
+                    cups = [t for t in enc.lex(out.take()) if t[0] == "c" and t[4] == "H" and t[1] == ""]
+                    at = min(4, max(0, (cups[-1][2][0] if cups and cups[-1][2] else 1) - 1))
+                    ev["top0"], ev["last0"] = win.top_usable_row, at
+                    ev["rows"] = [at + inp["d"]] * 3
+                    inp = dict(inp, rows=ev["rows"])
+                else:
+                    win = CursorAwareWindow(out_stream=out, in_stream=ins, extra_bytes_callback=None)
+                    win.top_usable_row = inp["top0"]
+                    win._last_cursor_row = None if inp["last0"] == -1 else inp["last0"]
                 rows = inp["rows"]
                 state = {"q": 0, "nested_done": False, "nestedret": 0}
                 orig_write = out.write
